@@ -766,7 +766,7 @@ fn int32_space(thorough: bool) -> Vec<(String, Space)> {
 }
 
 fn int64_space(thorough: bool) -> Vec<(String, Space)> {
-    let hb = if thorough { 22 } else { 15 };
+    let hb = if thorough { 22 } else { 16 };
     let ext: Vec<u128> = {
         let mut l = vec![];
         for d in 0..512u64 {
